@@ -31,6 +31,11 @@ Every call spells its condition keywords in a fresh random order (shared P= / x=
 the order; a shared x= alone reaches every coverage model.
 M3  S(P) = S(1 bar) - ln P, G(P) = G(1 bar) + ln P, default pressure = 1 bar for species that
     carry the adjustment; no pressure dependence otherwise.
+DUP two or more attached coverage models with identical parameters (distinct objects equal by value, or the same
+    object listed twice or more), also after copy / from_dict / JSON: M1 expects bare + the sum over EVERY attached
+    model (each listed entry counts once); CNT expects n calls per listed entry.
+BP  a '<name_j>_kwargs' block may carry its own P (P_j != shared P) next to x: the block is for the models watching
+    j only; the pressure adjustment uses the shared P= (default 1 bar), wherever it sits in misc_models.
 CNT probe monitor: during one evaluation of Cp/H/S at n temperatures every attached model's
     own getter of that quantity runs exactly n times (per model instance).
 """
@@ -88,7 +93,14 @@ REQUIRED_CLASSES = (['class:Nasa', 'class:Nasa9', 'class:Shomate'] +
                      'raw_entry:middle',
                      'hist:copy', 'hist:deepcopy', 'hist:from_dict', 'hist:json', 'hist:cycles3',
                      'shared_list:gas_first', 'shared_list:other_first', 'P:default', 'P:given',
-                     'x:default', 'x:on_break', 'x:beyond_last', 'cond:distractor_block', 'cov:self_interaction'])
+                     'x:default', 'x:on_break', 'x:beyond_last', 'cond:distractor_block', 'cov:self_interaction',
+                     # value-equal / identical coverage models (recorded only when their contribution is non-zero)
+                     'dup:equal_distinct', 'dup:same_object', 'dup:3+', 'dup:reloaded', 'dup:copied',
+                     'dup:Nasa', 'dup:Nasa9', 'dup:Shomate',
+                     # a species specific block carrying its own pressure, different from the shared one
+                     'block_P:any', 'block_P:adj_after_cov', 'block_P:adj_before_cov', 'block_P:adj_between_cov',
+                     'block_P:shared_P_default', 'block_P:no_adj', 'block_P:reloaded',
+                     'block_P:Nasa', 'block_P:Nasa9', 'block_P:Shomate'])
 REQUIRED_PROBES = ['EmpiricalBase.__init__', '_get_mix_quantity', 'GasPressureAdj.get_SoR',
                    'PiecewiseCovEffect.get_HoRT', 'PiecewiseCovEffect.get_UoRT', 'ConstantMode.get_CpoR']
 ASSUMPTIONS = [
@@ -104,6 +116,10 @@ ASSUMPTIONS = [
     '(the dimensionless value itself is decided by M1); one-element lists / tuples / ndarrays are decided as given',
     'a shared x= and a <name_j>_kwargs block in the same call: the block wins for the models watching j (what '
     '_get_specie_kwargs documents: species specific parameters are merged over the shared ones)',
+    'the same coverage model listed k times in misc_models is k attached models (k contributions, k x n getter calls); '
+    'a pressure adjustment listed more than once is not generated',
+    'a P inside a <name_j>_kwargs block addresses the models watching j only (coverage models ignore it); the pressure '
+    'adjustment has no name_j and takes the shared P= (1 bar when absent)',
     'CNT counts the model getters of Cp, H, S (G is H - S and may legitimately be assembled either way); it presumes '
     'that models are evaluated one temperature at a time, as _get_mix_quantity does (a vectorised rewrite would '
     'need CNT restated as one call per model per evaluation)']
@@ -329,6 +345,10 @@ def _gen_conditions(rng, spec):
         else:
             x = _r(rng, 0.0, 1.0)
         cond['x'][m['name_j']] = x
+    cond['P_block'] = {}
+    for j in sorted(cond['x']):
+        if rng.random() < 0.4:
+            cond['P_block'][j] = SG.logu(rng, 1e-3, 1e2, 4)       # the block's own pressure (!= shared P)
     cond['x_shared'] = None
     if any(m['kind'] == 'cov' for m in spec['models'] or []) and rng.random() < 0.35:
         cond['x_shared'] = _r(rng, 0.0, 1.0)        # shared coverage: used by every model without its own block
@@ -459,6 +479,42 @@ def directed(tier):
                            history=['deepcopy', 'json', 'from_dict', 'json'], lengths=[2]))
             D.append(_case(rng, cls, ['s', 'S', None][(k + n_cls) % 3], [covC], add=f,
                            history=['json', 'from_dict'], lengths=[2]))
+        # value-equal coverage models (distinct objects / the same object listed again), 2 and 3 of them, every
+        # reload route, non-zero coverage
+        covB1, covC1 = dict(covB, obj='A'), dict(covC, obj='B')
+        for k, (ph, mods, hi) in enumerate((
+                ('S', [covB, dict(covB)], []),
+                ('s', [covB1, dict(covB1)], ['copy']),
+                ('g', [covB, dict(covB)], ['from_dict']),
+                ('Gas', [covB1, dict(covB1)], ['json']),
+                (None, [covB, covC, dict(covB), dict(covB)], ['deepcopy', 'json', 'from_dict']),
+                ('S', [covB1, covC1, dict(covB1), dict(covC1)], ['from_dict', 'json']),
+                ('G', [covC1, gas, dict(covC1), dict(covC)], ['deepcopy']),
+                ('gas', [dict(covSelf), raw, dict(covSelf)], ['json', 'json']))):
+            c = _case(rng, cls, ph, mods, history=hi, lengths=[1, 3], units='J/mol/K')
+            c['cond'] = {'P': [2.5, None, 0.04][k % 3], 'x': {'O(S)': [0.1, 0.45, 0.9][(k + n_cls) % 3], 'H(S)': 0.7,
+                                                            'CO(S)': 0.8},
+                         'x_shared': None, 'P_block': {}, 'distractor': None, 'order_seed': 31 + k}
+            if k % 2:
+                c['cond']['x_shared'] = c['cond']['x'].pop('O(S)')
+            D.append(c)
+        # a species specific block with its own pressure: the adjustment after / before / between the coverage
+        # models, attached automatically, pre-attached, raw; shared P given or left at its default; no adjustment
+        for k, (ph, mods, add, hi) in enumerate((
+                ('g', [covB], None, []),
+                ('G', [covB], None, ['from_dict']),
+                ('gas', [covB, covC], None, ['json']),
+                ('Gas', [gas, covB], None, []),
+                ('g', [covB, gas, covC], None, ['deepcopy', 'from_dict']),
+                ('gas', [covC, raw], None, ['json']),
+                ('G', [covB, const], None, []),
+                ('g', [covB], 'False', ['from_dict']),
+                ('S', [covB, covC], None, ['json']))):
+            c = _case(rng, cls, ph, mods, add=add, history=hi, lengths=[1, 3], units='J/mol/K')
+            c['cond'] = {'P': [2.0, None, 0.05][(k + n_cls) % 3], 'x': {'O(S)': 0.5, 'H(S)': 0.25}, 'x_shared': None,
+                         'P_block': {'O(S)': 0.1, 'H(S)': 30.0}, 'order_seed': 53 + k,
+                         'distractor': {'name': 'Z(S)', 'x': 0.3, 'P': 7.0} if k % 2 else None}
+            D.append(c)
         # pinned witnesses ------------------------------------------------------------
         # (a) two models + the automatic adjustment, array lengths 1, 2, 3 (= n_models), 4, 50
         D.append(_case(rng, cls, 'g', [covB, covC], lengths=[1, 2, 3, 4, 50], units='J/mol/K'))
@@ -534,6 +590,17 @@ def generate(rng, tier):
             models.append(_gen_const(rng))
         else:
             models.append({'kind': k})
+    covi = [i for i, m in enumerate(models) if m['kind'] == 'cov']
+    if covi and len(models) < 4 and rng.random() < 0.22:
+        # value-equal coverage models: distinct objects with identical parameters and / or one object listed again
+        src = models[rng.choice(covi)]
+        if rng.random() < 0.5:
+            src['obj'] = 'A'
+        for _ in range(min(rng.choice([1, 1, 2]), 4 - len(models))):
+            dup = dict(src)
+            if 'obj' in dup and rng.random() < 0.25:
+                del dup['obj']                          # a distinct equal object beside the repeated one
+            models.insert(rng.randrange(len(models) + 1), dup)
     history = []
     r = rng.random()
     if r < 0.45:
@@ -645,7 +712,10 @@ def _kwargs(cond, P='spec'):
     if cond.get('x_shared') is not None:
         items.append(('x', cond['x_shared']))
     for j, x in cond['x'].items():
-        items.append(('%s_kwargs' % j, {'x': x}))
+        blk = {'x': x}
+        if j in (cond.get('P_block') or {}):
+            blk['P'] = cond['P_block'][j]
+        items.append(('%s_kwargs' % j, blk))
     d = cond.get('distractor')
     if d:
         items.append(('%s_kwargs' % d['name'], {'x': d['x'], 'P': d['P']}))
@@ -747,8 +817,9 @@ class _Eval:
                         if not isinstance(m, (GasPressureAdj, PiecewiseCovEffect, ConstantMode)):
                             continue
                         n = counts.get((id(m), 'get_' + q), 0)
-                        ctx.check('CNT', n == len(T_list), dict(mech, clause='CNT', model=type(m).__name__),
-                                  calls=n, temperatures=len(T_list))
+                        mult = sum(1 for o in obj.misc_models if o is m)     # one object listed mult times
+                        ctx.check('CNT', n == mult * len(T_list), dict(mech, clause='CNT', model=type(m).__name__),
+                                  calls=n, temperatures=len(T_list), listed=mult)
 
     def m3(self, obj, hist, scalars, arrays):
         import numpy as np
@@ -965,6 +1036,57 @@ def run_case(spec, ctx):
                 ctx.cls('x:on_break')
             if x is not None and x > m['intervals'][-1]:
                 ctx.cls('x:beyond_last')
+    hist_ops = set(spec['history'])
+    # ---- value-equal coverage models
+    groups = {}
+    for m in (user or []):
+        if m['kind'] == 'cov':
+            groups.setdefault(json.dumps([m['name_i'], m['name_j'], m['intervals'], m['slopes']]), []).append(m)
+    xs_eff = eff_x(cond, models)
+    for g in groups.values():
+        if len(g) < 2:
+            continue
+        labels = [m.get('obj') for m in g]
+        same = any(lb is not None and labels.count(lb) >= 2 for lb in labels)
+        distinct = len(set(lb if lb is not None else ('u', i) for i, lb in enumerate(labels))) >= 2
+        base['dup_models'] = 'same_object' if same and not distinct else 'equal_distinct' if not same else 'both'
+        if pw_value(g[0]['intervals'], g[0]['slopes'], xs_eff.get(g[0]['name_j'], 0.0)) == 0.0:
+            continue                                     # no contribution: the stratum is not exercised
+        if same:
+            ctx.cls('dup:same_object')
+        if distinct:
+            ctx.cls('dup:equal_distinct')
+        if len(g) >= 3:
+            ctx.cls('dup:3+')
+        if hist_ops & {'from_dict', 'json'}:
+            ctx.cls('dup:reloaded')
+        if hist_ops & {'copy', 'deepcopy'}:
+            ctx.cls('dup:copied')
+        ctx.cls('dup:' + cls)
+    # ---- species specific blocks that carry their own pressure
+    Pb = cond.get('P_block') or {}
+    if Pb:
+        base['block_P'] = True
+    P_eff = 1.0 if cond['P'] is None else cond['P']
+    rel = set(j for j in Pb if j in cond['x'] and Pb[j] != P_eff)
+    pos_cov = [i for i, m in enumerate(models) if m['kind'] == 'cov' and m['name_j'] in rel]
+    if pos_cov:
+        ctx.cls('block_P:any', 'block_P:' + cls)
+        if cond['P'] is None:
+            ctx.cls('block_P:shared_P_default')
+        pos_gas = [i for i, m in enumerate(models) if m['kind'] == 'gas']
+        if not pos_gas:
+            ctx.cls('block_P:no_adj')
+        else:
+            before, after = min(pos_cov) < pos_gas[0], max(pos_cov) > pos_gas[0]
+            if before:
+                ctx.cls('block_P:adj_after_cov')
+            if after:
+                ctx.cls('block_P:adj_before_cov')
+            if before and after:
+                ctx.cls('block_P:adj_between_cov')
+            if hist_ops & {'from_dict', 'json'}:
+                ctx.cls('block_P:reloaded')
     for a in spec['arrays']:
         n = len(a['T'])
         ctx.cls('array:' + a['kind'])
@@ -999,7 +1121,14 @@ def run_case(spec, ctx):
     extra = {}
     lst = None
     if user is not None:
-        lst = [_build_model(m) for m in user]
+        lst, same = [], {}
+        for m in user:
+            if m.get('obj') is not None:                 # entries with the same label are one object
+                if m['obj'] not in same:
+                    same[m['obj']] = _build_model(m)
+                lst.append(same[m['obj']])
+            else:
+                lst.append(_build_model(m))
         extra['misc_models'] = lst
     if flag != 'default':
         extra['add_gas_P_adj'] = flag_value(flag)
